@@ -75,6 +75,9 @@ mpf_eq (mpf_srcptr u, mpf_srcptr v, mp_bitcnt_t n_bits)
   if (cu != cv)
     return 0;
   n = BITS_TO_LIMBS (n_bits + cu);
+  if (n == 0)
+    return 1;			/* n_bits == 0 and no leading zeros: nothing to
+				   compare; don't read up[usize] below */
 //compair bottom limb
   k = n * GMP_NUMB_BITS - n_bits - cu;
   uval = vval = 0;
